@@ -1789,7 +1789,7 @@ Proof. unf_preds. lia. Qed.
 Definition jamo_only_font (c : N) : bool := negb (is_combined_s c).
 Lemma lv_t_unsupported_lv_witness :
   run jamo_only_font (fun _ => false) HANGUL_MERGE_LEVEL false (mk_input [(44032, 0); (4520, 1)])
-  = Some [mkI 4352 0 LJMO false false; mkI 4449 0 VJMO false true; mkI 4520 1 0 false false].
+  = Some [mkI 4352 0 LJMO false false; mkI 4449 0 VJMO false true; mkI 4520 1 0 true false].
 Proof. vm_compute. reflexivity. Qed.
 (* the same text when the font has LV (but not LVT): the three jamo are one tagged syllable *)
 Definition no_lvt_font (c : N) : bool := negb (is_combined_s c) || (tindex_of c =? 0).
@@ -1797,3 +1797,16 @@ Lemma lv_t_supported_lv_witness :
   run no_lvt_font (fun _ => false) HANGUL_MERGE_LEVEL false (mk_input [(44032, 0); (4520, 1)])
   = Some [mkI 4352 0 LJMO false false; mkI 4449 0 VJMO false true; mkI 4520 0 TJMO false true].
 Proof. vm_compute. reflexivity. Qed.
+
+Lemma old_are_jamo u :
+  ((4371 <= u <= 4447 \/ 43360 <= u <= 43388) -> is_l u = true) /\
+  ((4470 <= u <= 4519 \/ u = 4448 \/ 55216 <= u <= 55238) -> is_v u = true) /\
+  ((4547 <= u <= 4607 \/ 55243 <= u <= 55291) -> is_t u = true).
+Proof. unf_preds. lia. Qed.
+
+Lemma constants_ok :
+  (S_BASE, L_BASE, V_BASE, T_BASE, L_COUNT, V_COUNT, T_COUNT) = (44032, 4352, 4449, 4519, 19, 21, 28) /\
+  (U_S_BASE, U_L_BASE, U_V_BASE, U_T_BASE, U_L_COUNT, U_V_COUNT, U_T_COUNT) = (44032, 4352, 4449, 4519, 19, 21, 28) /\
+  (LJMO, VJMO, TJMO) = (1, 2, 3) /\ hangul_mask_tags_ok = true /\
+  HANGUL_MERGE_LEVEL = LEVEL_MONOTONE_GRAPHEMES /\ DOTTED_CIRCLE = 9676.
+Proof. repeat split. Qed.
